@@ -599,3 +599,178 @@ Proof.
     apply (proj1 (forallb_forall _ _) (proj1 (forallb_forall _ _) Ht x Ix) y Iy).
   - rewrite <- occ_wfb_wf. exact Ho.
 Qed.
+
+(* ====================================================================================================
+   Transport: pick everything up on a grid w0 of trap sites, travel along any waypoints, release on the
+   last grid wn (trap sites that are vacant, or vacated by this very move).  Shape of move_by_waypoints
+   (pick and drop) and of two_col_zone.rearrange.
+   ==================================================================================================== *)
+Lemma spots_ok_unique_pos L a b : spots_ok L -> In a L -> In b L -> pos_eqb (snd a) (snd b) = true -> a = b.
+Proof.
+  induction L as [|x r IH]; simpl; intros O Ia Ib E; [contradiction|]. destruct O as [Hx O].
+  destruct Ia as [<- | Ia], Ib as [<- | Ib].
+  - reflexivity.
+  - destruct (Hx b Ib) as [_ N]. rewrite pos_eqb_sym in E. rewrite E in N. discriminate.
+  - destruct (Hx a Ia) as [_ N]. rewrite E in N. discriminate.
+  - apply IH; assumption.
+Qed.
+Lemma find_pos_in L sp : spots_ok L -> In sp L -> find_pos (snd sp) L = Some sp.
+Proof.
+  intros O I. unfold find_pos. destruct (find (fun sp0 => pos_eqb (snd sp) (snd sp0)) L) as [sp'|] eqn:F.
+  - destruct (find_some _ _ F) as [I' E]. f_equal. symmetry. apply (spots_ok_unique_pos L sp sp' O I I' E).
+  - exfalso. pose proof (find_none _ _ F sp I) as X. simpl in X. rewrite pos_eqb_refl in X. discriminate.
+Qed.
+Lemma in_spots_canon_conv nx ny cx cy i j : i < nx -> j < ny ->
+  In ((i, j), (nth i cx 0%Q, nth j cy 0%Q)) (spots_of (canon nx cx) (canon ny cy)).
+Proof.
+  intros Hi Hj. unfold spots_of, canon. apply in_flat_map. exists (i, nth i cx 0%Q). split.
+  - apply in_map_iff. exists i. split; [reflexivity | apply in_seq; lia].
+  - apply in_map_iff. exists (j, nth j cy 0%Q). split; [reflexivity|]. apply in_map_iff. exists j. split; [reflexivity | apply in_seq; lia].
+Qed.
+Lemma cur_after_cons w : forall ws cur, cur_after (w :: ws) cur = Some (last (w :: ws) w).
+Proof.
+  unfold cur_after. intros ws. revert w. induction ws as [|v r IH]; intros w cur; [reflexivity|].
+  change (fold_left (fun _ x => Some x) (v :: r) (Some w) = Some (last (v :: r) w)).
+  rewrite (IH v (Some w)). f_equal. apply last_default_irrelevant.
+Qed.
+
+Theorem transport nx ny (T : list pos) (O : list (pos * nat)) (w0 : list Q * list Q) (ws : list (list Q * list Q)) :
+  let wn := last (w0 :: ws) w0 in
+  let Lsrc := spots_of (canon nx (fst w0)) (canon ny (snd w0)) in
+  wp_ok nx ny w0 -> Forall (wp_ok nx ny) ws ->
+  (forall x y, In x (fst w0) -> In y (snd w0) -> existsb (pos_eqb (x, y)) T = true) ->
+  (forall x y, In x (fst wn) -> In y (snd wn) -> existsb (pos_eqb (x, y)) T = true) ->
+  (forall x y, In x (fst wn) -> In y (snd wn) -> occ_find (x, y) O = None \/ has_pos (x, y) Lsrc = true) ->
+  occ_wf O = true ->
+  exists st', sim_paths (mkast T O [] [] [])
+                [mkspath nx ny [SWay [w0]; SSwitch On ALL ALL; SWay (w0 :: ws); SSwitch Off ALL ALL; SWay [wn]]] = AOk st' /\
+    traps st' = T /\ xon st' = [] /\ yon st' = [] /\ held st' = [] /\
+    (* the atom under tone (i, j) travels from the (i, j) site of w0 to the (i, j) site of wn *)
+    (forall i j, i < nx -> j < ny ->
+       occ_find (nth i (fst wn) 0%Q, nth j (snd wn) 0%Q) (occ st') = occ_find (nth i (fst w0) 0%Q, nth j (snd w0) 0%Q) O) /\
+    (* every other site is unchanged, except that the sites of w0 are vacated *)
+    (forall p, has_pos p (spots_of (canon nx (fst wn)) (canon ny (snd wn))) = false ->
+       occ_find p (occ st') = if has_pos p Lsrc then None else occ_find p O).
+Proof.
+  intros wn Lsrc H0 Hws Ht0 Htn Hvac Hocc.
+  assert (Hall : Forall (wp_ok nx ny) (w0 :: ws)) by (constructor; assumption).
+  assert (Hn : wp_ok nx ny wn).
+  { unfold wn. apply (proj1 (Forall_forall _ _) Hall). destruct ws as [|v r]; [left; reflexivity|].
+    pose proof (@app_removelast_last _ (w0 :: v :: r) w0 ltac:(discriminate)) as E. rewrite E at 2. apply in_or_app. right. left. reflexivity. }
+  destruct w0 as [sx sy]. destruct wn as [ex ey] eqn:Ewn. simpl fst in *. simpl snd in *.
+  destruct H0 as [Lx [Ly [Dx Dy]]]. destruct Hn as [Mx [My [Ex Ey]]]. simpl fst in *. simpl snd in *.
+  set (Ldst := spots_of (canon nx ex) (canon ny ey)).
+  assert (OkS : spots_ok Lsrc) by (unfold Lsrc; apply spots_ok_product; [rewrite <- Lx | rewrite <- Ly]; apply tones_ok_canon; assumption).
+  assert (OkD : spots_ok Ldst) by (unfold Ldst; apply spots_ok_product; [rewrite <- Mx | rewrite <- My]; apply tones_ok_canon; assumption).
+  assert (TrS : forall st, traps st = T -> forall sp, In sp Lsrc -> is_trap st (snd sp) = true).
+  { intros st Et sp I. apply in_spots_canon in I. destruct I as [i [j [Hi [Hj ->]]]]. unfold is_trap. rewrite Et. simpl. apply Ht0; apply nth_In; lia. }
+  assert (TrD : forall st, traps st = T -> forall sp, In sp Ldst -> is_trap st (snd sp) = true).
+  { intros st Et sp I. apply in_spots_canon in I. destruct I as [i [j [Hi [Hj ->]]]]. unfold is_trap. rewrite Et. simpl. apply Htn; apply nth_In; lia. }
+  destruct (picks_spec Lsrc (mkast T O (canon nx sx) (canon ny sy) []) OkS) as [st2 [E2 [[F1 [F2 F3]] [W2 [O2 H2]]]]].
+  { apply TrS. reflexivity. }
+  { split; [exact Hocc | constructor]. }
+  { intros sp _. reflexivity. }
+  destruct st2 as [T2 Oc2 X2 Y2 Hd2]. simpl in F1, F2, F3, O2, H2. subst T2 X2 Y2.
+  destruct (drops_spec Ldst (mkast T Oc2 [] [] Hd2) OkD) as [st4 [E4 [[G1 [G2 G3]] [W4 [O4 H4]]]]].
+  { apply TrD. reflexivity. }
+  { exact W2. }
+  { intros sp a I _. simpl. rewrite O2. destruct (has_pos (snd sp) Lsrc) eqn:Hp; [reflexivity|].
+    apply in_spots_canon in I. destruct I as [i [j [Hi [Hj ->]]]]. simpl snd in *.
+    destruct (Hvac (nth i ex 0%Q) (nth j ey 0%Q)) as [V | V]; [apply nth_In; lia | apply nth_In; lia | exact V |].
+    fold Lsrc in V. rewrite V in Hp. discriminate. }
+  destruct st4 as [T4 Oc4 X4 Y4 Hd4]. simpl in G1, G2, G3, O4, H4. subst T4 X4 Y4.
+  exists (mkast T Oc4 [] [] Hd4).
+  split; [|split; [reflexivity | split; [reflexivity | split; [reflexivity | split; [|split]]]]].
+  - unfold sim_paths. cbn [fold_a p_nx p_ny p_actions sim_actions].
+    assert (W0 : wp_ok nx ny (sx, sy)) by (repeat split; assumption).
+    rewrite (way_off nx ny [(sx, sy)] T O [] true None (Forall_cons _ W0 (Forall_nil _))). cbn [cur_after fold_left].
+    rewrite (switch_on_all nx ny T O [] sx sy Lx Ly Dx Dy). fold Lsrc. rewrite E2.
+    rewrite (way_on nx ny ((sx, sy) :: ws) T Oc2 Hd2 sx sy true (Some (sx, sy)) Hall (fun _ => eq_refl)).
+    assert (Ewn' : last ((sx, sy) :: ws) (sx, sy) = (ex, ey)) by exact Ewn.
+    rewrite Ewn'. simpl fst. simpl snd. rewrite cur_after_cons.
+    rewrite (switch_off_all nx ny T Oc2 Hd2 ex ey (last ((sx, sy) :: ws) (sx, sy))). fold Ldst. rewrite E4.
+    assert (Wn : wp_ok nx ny (ex, ey)) by (repeat split; assumption).
+    rewrite (way_off nx ny [(ex, ey)] T Oc4 Hd4 true _ (Forall_cons _ Wn (Forall_nil _))). reflexivity.
+  - simpl. apply held_all_none. intros t. rewrite H4. simpl. destruct (has_id t Ldst) eqn:Hi; [reflexivity|].
+    rewrite H2. destruct (find_id t Lsrc) as [sp|] eqn:Fi; [|reflexivity].
+    (* a spot of the source grid is a spot of the destination grid: same tone pair *)
+    exfalso. destruct (find_some _ _ Fi) as [I E]. apply spot_eqb_eq in E. apply in_spots_canon in I.
+    destruct I as [i [j [Hi' [Hj' ->]]]]. simpl in E. subst t.
+    assert (X : has_id (i, j) Ldst = true).
+    { unfold has_id. apply existsb_exists. eexists. split; [apply (in_spots_canon_conv nx ny ex ey i j Hi' Hj') | apply spot_eqb_refl]. }
+    rewrite X in Hi. discriminate.
+  - intros i j Hi Hj. simpl. rewrite O4. simpl.
+    pose proof (find_pos_in Ldst ((i, j), (nth i ex 0%Q, nth j ey 0%Q)) OkD (in_spots_canon_conv nx ny ex ey i j Hi Hj)) as Fp.
+    pose proof (find_id_in Lsrc ((i, j), (nth i sx 0%Q, nth j sy 0%Q)) OkS (in_spots_canon_conv nx ny sx sy i j Hi Hj)) as Fi.
+    simpl snd in Fp. simpl fst in Fi. rewrite Fp. simpl fst. rewrite H2, Fi. simpl snd.
+    destruct (occ_find (nth i sx 0%Q, nth j sy 0%Q) O) as [a|]; [reflexivity|].
+    rewrite O2. destruct (has_pos (nth i ex 0%Q, nth j ey 0%Q) Lsrc) eqn:Hp; [reflexivity|].
+    destruct (Hvac (nth i ex 0%Q) (nth j ey 0%Q)) as [V | V]; [apply nth_In; lia | apply nth_In; lia | exact V |].
+    fold Lsrc in V. rewrite V in Hp. discriminate.
+  - intros p Hp. simpl. rewrite O4. simpl. fold Ldst in Hp. rewrite (find_pos_none p Ldst Hp). apply O2.
+Qed.
+
+(* ---------- from the boolean transport recogniser to the theorem ---------- *)
+Lemma recognise_transport_sound ps nx ny w0 ws : recognise_transport ps = Some (nx, ny, w0, ws) ->
+  ps = [mkspath nx ny [SWay [w0]; SSwitch On ALL ALL; SWay (w0 :: ws); SSwitch Off ALL ALL; SWay [last (w0 :: ws) w0]]].
+Proof.
+  unfold recognise_transport. intros H.
+  repeat match goal with
+         | H : match ?x with _ => _ end = Some _ |- _ => destruct x eqn:?; try discriminate
+         end.
+  inversion H; subst.
+  repeat match goal with
+         | H : _ && _ = true |- _ => apply andb_true_iff in H; destruct H
+         end.
+  repeat match goal with
+         | H : is_all _ = true |- _ => apply is_all_eq in H
+         | H : wp_eqb _ _ = true |- _ => apply wp_eqb_eq in H
+         end.
+  subst. reflexivity.
+Qed.
+
+Lemma in_grid_sites w x y : In x (fst w) -> In y (snd w) -> In (x, y) (grid_sites w).
+Proof.
+  intros Ix Iy. unfold grid_sites. apply in_flat_map. exists x. split; [exact Ix|]. apply in_map_iff. exists y. split; [reflexivity | exact Iy].
+Qed.
+Lemma has_pos_of_grid_sites nx ny w p : length (fst w) = nx -> length (snd w) = ny ->
+  existsb (pos_eqb p) (grid_sites w) = true -> has_pos p (spots_of (canon nx (fst w)) (canon ny (snd w))) = true.
+Proof.
+  intros Lx Ly H. apply existsb_exists in H. destruct H as [q [I E]]. unfold grid_sites in I.
+  apply in_flat_map in I. destruct I as [x [Ix I]]. apply in_map_iff in I. destruct I as [y [<- Iy]].
+  destruct (In_nth _ _ 0%Q Ix) as [i [Hi Ei]]. destruct (In_nth _ _ 0%Q Iy) as [j [Hj Ej]].
+  unfold has_pos. apply existsb_exists. exists ((i, j), (nth i (fst w) 0%Q, nth j (snd w) 0%Q)). split.
+  - apply in_spots_canon_conv; lia.
+  - simpl. rewrite Ei, Ej. exact E.
+Qed.
+
+Theorem recognised_transport_executable T O ps nx ny w0 ws :
+  recognise_transport ps = Some (nx, ny, w0, ws) -> transport_ok T O ps = true ->
+  let wn := last (w0 :: ws) w0 in
+  exists st', sim_paths (mkast T O [] [] []) ps = AOk st' /\
+    traps st' = T /\ xon st' = [] /\ yon st' = [] /\ held st' = [] /\
+    (forall i j, i < nx -> j < ny ->
+       occ_find (nth i (fst wn) 0%Q, nth j (snd wn) 0%Q) (occ st') = occ_find (nth i (fst w0) 0%Q, nth j (snd w0) 0%Q) O) /\
+    (forall p, has_pos p (spots_of (canon nx (fst wn)) (canon ny (snd wn))) = false ->
+       occ_find p (occ st') = if has_pos p (spots_of (canon nx (fst w0)) (canon ny (snd w0))) then None else occ_find p O).
+Proof.
+  intros R H wn. unfold transport_ok in H. rewrite R in H.
+  repeat match goal with
+         | H : _ && _ = true |- _ => apply andb_true_iff in H; destruct H
+         end.
+  rewrite (recognise_transport_sound _ _ _ _ _ R).
+  match goal with
+  | H1 : wp_okb nx ny w0 = true, H2 : forallb (wp_okb nx ny) ws = true, H3 : on_traps T w0 = true,
+    H4 : on_traps T _ = true, H5 : occ_wfb O = true, H6 : forallb _ (grid_sites _) = true |- _ =>
+      pose proof (wp_okb_ok _ _ _ H1) as W0;
+      apply (transport nx ny T O w0 ws W0)
+  end.
+  - apply Forall_forall. intros w I. apply wp_okb_ok. match goal with H2 : forallb (wp_okb nx ny) ws = true |- _ => apply (proj1 (forallb_forall _ _) H2 w I) end.
+  - intros x y Ix Iy. match goal with H3 : on_traps T w0 = true |- _ => unfold on_traps in H3; apply (proj1 (forallb_forall _ _) (proj1 (forallb_forall _ _) H3 x Ix) y Iy) end.
+  - intros x y Ix Iy. match goal with H4 : on_traps T (last (w0 :: ws) w0) = true |- _ => unfold on_traps in H4; apply (proj1 (forallb_forall _ _) (proj1 (forallb_forall _ _) H4 x Ix) y Iy) end.
+  - intros x y Ix Iy.
+    match goal with H6 : forallb _ (grid_sites _) = true |- _ => pose proof (proj1 (forallb_forall _ _) H6 (x, y) (in_grid_sites _ x y Ix Iy)) as V end.
+    simpl in V. destruct (occ_find (x, y) O); [right | left; reflexivity].
+    destruct W0 as [Lx [Ly _]]. apply (has_pos_of_grid_sites nx ny w0 (x, y) Lx Ly V).
+  - match goal with H5 : occ_wfb O = true |- _ => rewrite <- occ_wfb_wf; exact H5 end.
+Qed.
